@@ -1646,6 +1646,10 @@ class AnsiString:
             idx = self._s.find(s, idx)
             split_idx_len.append((idx, len(s)))
             idx += len(s)
+            if sep is not None:
+                # The next piece starts right behind the separator; searching from the end of this piece could
+                # find it too early (e.g. 'xabbbb'.split('ab'): 'bbb' also occurs inside 'abbb')
+                idx += len(sep)
 
         ansi_str_splits = []
         for idx, length in split_idx_len:
